@@ -3,6 +3,7 @@ import common
 import lexcommon
 import lrcommon
 from props import c10_table
+from props import c02_lexmodel
 
 LEVEL = "proof"
 
@@ -11,6 +12,7 @@ def run(r):
     r.require_theorems(1)
     c10_table.run_table(r)
     lexcommon.run_lex(r, "C10", use=("lex.bisim", "lex.wfmodes"))
+    c02_lexmodel.run_lexmodel(r, "C10")
     # parser tables: the validator reads the arrays back by the documented row format
     n = 8 if r.tier == "quick" else 120
     res = r.run_family("lrgen", n=n, timeout=7200)
